@@ -151,7 +151,9 @@ func verifC09Sys(id string, seed int64) *verifSys {
 				}
 			}
 		}
-		if m.Refresh > 0 && len(w.Q[0])+len(w.Q[1]) == 0 {
+		if m.Refresh == 2 && len(w.Q[0])+len(w.Q[1]) == 0 {
+			evs = append(evs, verifEv{K: "restart", I: 0})
+		} else if m.Refresh > 0 && len(w.Q[0])+len(w.Q[1]) == 0 {
 			evs = append(evs, verifEv{K: "refresh", I: 0})
 		}
 		return evs
@@ -215,6 +217,20 @@ func verifC09Sys(id string, seed int64) *verifSys {
 			verifTick(w.P[1].C)
 			w.Q[1] = append(w.Q[1], w.P[0].Query())
 			return nil
+		case "restart":
+			// A ends the session (its disconnect message reaches B, who acknowledges with End), then asks again: the
+			// keys used in the ended session are all retired and still owed
+			m.Refresh = 0
+			re := w.P[0].End()
+			c09Learn(w, 0)
+			fs = append(fs, onEmit(w, 0, re.Out)...)
+			w.push(0, re.Out)
+			w.deliverAll(10, nil)
+			w.P[1].End()
+			verifTick(w.P[0].C)
+			verifTick(w.P[1].C)
+			w.Q[1] = append(w.Q[1], w.P[0].Query())
+			return fs
 		case "deliver":
 			msg := w.pop(e.I)
 			_, dm, _, isData := verifParseData(msg)
@@ -301,11 +317,11 @@ func init() {
 		Level: "model_checking",
 		Build: verifC09Sys,
 		Run: func(r *verifReport) {
-			r.Rule = "all interleavings of Send/deliver of two parties over FIFO queues (per-side budgets, incl. one-directional streams) an optional refresh while encrypted, and injected data messages with current key ids and a wrong MAC; the monitor recomputes every receiving MAC key each party can form from the DH keys it holds; safety on EVERY emitted data message: each disclosed value is a receiving MAC key of the discloser, and on a clone of the discloser taken right after the send a forged message for that key pair with a fresh counter and a correct MAC under the disclosed key is rejected; liveness at every maximal path after one flush message each way: every key that authenticated an accepted message and whose pair is retired (same behavioural probe) has been disclosed"
+			r.Rule = "all interleavings of Send/deliver of two parties over FIFO queues (per-side budgets, incl. one-directional streams) an optional refresh while encrypted or End + new exchange (R2), and injected data messages with current key ids and a wrong MAC; the monitor recomputes every receiving MAC key each party can form from the DH keys it holds; safety on EVERY emitted data message: each disclosed value is a receiving MAC key of the discloser, and on a clone of the discloser taken right after the send a forged message for that key pair with a fresh counter and a correct MAC under the disclosed key is rejected; liveness at every maximal path after one flush message each way: every key that authenticated an accepted message and whose pair is retired (same behavioural probe) has been disclosed"
 			r.Assumptions = []string{"MAC keys are recomputed with the package's own key-derivation function from the DH keys found in the conversations (not an independent implementation)", "End() is not part of this exploration: the keys of an ended session are dropped, not retired by rotation"}
-			ids := []string{"v3/S3-3/R0", "v2/S2-2/R0", "v3/S5-0/R0", "v3/S1-4/R0", "v3/S2-2/R1", "v3/S2-2/R0/F1", "v2/S2-1/R0/F1"}
+			ids := []string{"v3/S3-3/R0", "v2/S2-2/R0", "v3/S5-0/R0", "v3/S1-4/R0", "v3/S2-2/R1", "v3/S2-2/R0/F1", "v2/S2-1/R0/F1", "v3/S2-2/R2", "v2/S2-1/R2"}
 			if r.Tier == "thorough" {
-				ids = []string{"v3/S4-4/R0", "v2/S4-4/R0", "v3/S6-0/R0", "v2/S0-6/R0", "v3/S2-5/R0", "v3/S3-3/R1", "v2/S2-2/R1", "v3/S3-3/R0/F1", "v2/S2-2/R0/F2", "v3/S2-2/R1/F1"}
+				ids = []string{"v3/S4-4/R0", "v2/S4-4/R0", "v3/S6-0/R0", "v2/S0-6/R0", "v3/S2-5/R0", "v3/S3-3/R1", "v2/S2-2/R1", "v3/S3-3/R0/F1", "v2/S2-2/R0/F2", "v3/S2-2/R1/F1", "v3/S3-3/R2", "v2/S2-2/R2"}
 			}
 			for _, id := range ids {
 				r.explore(verifC09Sys(id, r.Seed))
